@@ -799,7 +799,7 @@ def rule_handler_order(model):
             walk = [lp for lp in loops if 'blocks' in norm(lp.iter) or any(
                 isinstance(t, ast.Name) and 'section' in t.id
                 for t in ast.walk(lp.target))]
-            ok = c.func.attr == 'append' and bool(walk)
+            ok = c.func.attr in ('append', 'extend') and bool(walk)
             if ok:
                 # the entry is this iteration's clause
                 tv = {t.id for t in ast.walk(walk[-1].target)
